@@ -10,6 +10,8 @@ def rand_value(rng, lo_in=0, hi_in=127):
     if r < 0.7: return rng.randint(lo_in, hi_in)
     if r < 0.8: return rng.choice([-1, -128, -300, 128, 200, 255, 256, 300, 1000, 70000])
     if r < 0.9: return rng.choice([0, 1, 126, 127])
+    if r < 0.94:      # beyond 16 and 32 bits: a narrowing cast before the clamp would bring these back into range
+        return rng.choice([1, -1]) * (rng.choice([1 << 16, 1 << 31, 1 << 32, 1 << 40]) + rng.choice([0, 5, 64, 100, 127, 128]))
     return rng.randint(-500, 500)
 
 def rand_event(rng, t, allow_smf=False, wild=True):
